@@ -168,11 +168,16 @@ fn process_sequential(
             nonzero_idx -= 16;
         }
 
-        let (raw_bits, bitlen) = if coeff < 0 {
-            let coeff = -coeff;
-            (!coeff, 16 - coeff.leading_zeros())
+        // A JPEG coefficient has at most 15 magnitude bits; `i16::MIN` cannot be negated.
+        let magnitude = coeff.unsigned_abs();
+        let bitlen = 16 - magnitude.leading_zeros();
+        if bitlen > 15 {
+            return Err(Error::InvalidData);
+        }
+        let raw_bits = if coeff < 0 {
+            !(magnitude as i16)
         } else {
-            (coeff, 16 - coeff.leading_zeros())
+            coeff
         };
 
         let nonzero_idx = nonzero_idx as u8;
@@ -236,11 +241,16 @@ fn process_progressive_first<'recon>(
             nonzero_idx -= 16;
         }
 
-        let (raw_bits, bitlen) = if coeff < 0 {
-            let coeff = -coeff;
-            (!coeff, 16 - coeff.leading_zeros())
+        // A JPEG coefficient has at most 15 magnitude bits; `i16::MIN` cannot be negated.
+        let magnitude = coeff.unsigned_abs();
+        let bitlen = 16 - magnitude.leading_zeros();
+        if bitlen > 15 {
+            return Err(Error::InvalidData);
+        }
+        let raw_bits = if coeff < 0 {
+            !(magnitude as i16)
         } else {
-            (coeff, 16 - coeff.leading_zeros())
+            coeff
         };
 
         let nonzero_idx = nonzero_idx as u8;
@@ -486,13 +496,15 @@ impl super::JpegBitstreamReconstructor<'_, '_, '_> {
                             let mut ac_coeffs: Vec<i16> = Vec::with_capacity((se - ss) as usize);
                             for &(x, y) in &jxl_vardct::DCT8_NATURAL_ORDER[ss as usize..se as usize]
                             {
-                                let coeff = hf_coeff.get(x as usize, y as usize) as i16;
+                                // Hostile data can hold any `i32` here; shift the magnitude in
+                                // `i32` and truncate afterwards.
+                                let coeff = hf_coeff.get(x as usize, y as usize);
                                 let coeff = if coeff < 0 {
-                                    -((-coeff) >> al)
+                                    (coeff.wrapping_neg() >> al).wrapping_neg()
                                 } else {
                                     coeff >> al
                                 };
-                                ac_coeffs.push(coeff);
+                                ac_coeffs.push(coeff as i16);
                             }
 
                             let extra_zero_runs = smi.extra_zero_runs.get(&block_idx).copied();
